@@ -3,6 +3,7 @@ package loadbalancer
 import (
 	"bufio"
 	"context"
+	"errors"
 	"fmt"
 	"net"
 	"net/http"
@@ -19,6 +20,10 @@ import (
 	"github.com/0xReLogic/Helios/internal/ratelimiter"
 	"github.com/0xReLogic/Helios/internal/utils"
 )
+
+// errBackendFailure reports a proxied request that failed (5xx or aborted response) to the circuit
+// breaker; the response has already been written and recorded when it is returned
+var errBackendFailure = errors.New("backend request failed")
 
 // Strategy defines the interface for load balancing strategies
 type Strategy interface {
@@ -632,6 +637,10 @@ func (lb *LoadBalancer) ServeHTTP(w http.ResponseWriter, r *http.Request) {
 		err := lb.circuitBreaker.Execute(func() error {
 			return lb.handleRequest(w, r, startTime)
 		})
+		if err == errBackendFailure {
+			// Already answered and recorded; the breaker has counted the failure
+			return
+		}
 		if err != nil {
 			failureCount, successCount, requestCount := lb.circuitBreaker.Counts()
 			logger.Error().
@@ -654,7 +663,7 @@ func (lb *LoadBalancer) ServeHTTP(w http.ResponseWriter, r *http.Request) {
 		}
 	} else {
 		// Execute without circuit breaker
-		if err := lb.handleRequest(w, r, startTime); err != nil {
+		if err := lb.handleRequest(w, r, startTime); err != nil && err != errBackendFailure {
 			logger.Error().Err(err).Msg("request handling failed")
 		}
 	}
@@ -721,6 +730,10 @@ func (lb *LoadBalancer) proxyRequest(backend *Backend, w http.ResponseWriter, r 
 	backend.ReverseProxy.ServeHTTP(rw, r)
 	completed = true
 
+	// Let the circuit breaker count failed proxied requests
+	if rw.statusCode >= http.StatusInternalServerError {
+		return errBackendFailure
+	}
 	return nil
 }
 
